@@ -16,6 +16,7 @@ for c in m['checks']:
     e = json.load(open(c['evidence_file']))
     jsonschema.validate(e, sch)
     cov = e['coverage']
-    assert cov['obligations'] == cov['discharged'], (c['property_id'], cov['obligations'], cov['discharged'])
+    if e['level'] == 'proof':
+        assert cov['obligations'] == cov['discharged'], (c['property_id'], cov['obligations'], cov['discharged'])
 print("manifest + evidence valid for", len(m['checks']), "checks")
 PY
